@@ -20,7 +20,8 @@ RULE = (
 )
 ASSUMPTIONS = ["orbit table computed by BFS over local complementations in vf/ref/graphs.py (orbit counts re-checked in the self-test)",
                "random mode may answer 'no' on an equivalent pair (documented heuristic); only a wrong 'yes' is a violation there"]
-REQUIRED_CLASSES = {"pairs": ["equivalent_different", "inequivalent_same_edges", "disconnected", "self_pair", "solspace>=5"]}
+REQUIRED_CLASSES = {"pairs": ["equivalent_different", "inequivalent_same_edges", "disconnected", "self_pair", "solspace>=5"],
+                    "unions": ["equivalent_different", "disconnected", "interleaved_block_with_vertex>=8"]}
 
 GATE = {"I": "I", "H": "H", "P": "P", "P_dag": "Pdag", "X": "X", "Y": "Y", "Z": "Z"}
 
@@ -53,8 +54,32 @@ def check_pair(case, sub="pairs"):
         converter_gate_list, lc_check, state_converter_circuit)
 
     n, m1, m2 = case["n"], case["m1"], case["m2"]
-    truth = rg.lc_equivalent(n, m1, m2)
+    if case.get("blocks"):
+        # no edge leaves a block in either graph, and local complementation never adds one: the pair is LC-equivalent
+        # exactly when the two induced graphs on every block are (each block has <= 5 vertices: orbit table)
+        truth = True
+        for block in case["blocks"]:
+            idx = {v: k for k, v in enumerate(block)}
+            sub_masks = []
+            for m in (m1, m2):
+                mm = 0
+                for k, (i, j) in enumerate(rg.pairs(n)):
+                    if (m >> k) & 1:
+                        if (i in idx) != (j in idx):
+                            raise ValueError("edge leaves its block")
+                        if i in idx:
+                            a, b = sorted((idx[i], idx[j]))
+                            mm |= 1 << rg.pairs(len(block)).index((a, b))
+                sub_masks.append(mm)
+            truth = truth and rg.lc_equivalent(len(block), sub_masks[0], sub_masks[1])
+        sub = "unions" if sub == "pairs" else sub
+    else:
+        truth = rg.lc_equivalent(n, m1, m2)
     cl = pair_classes(n, m1, m2, truth)
+    if case.get("blocks"):
+        cl.append("blocks:%d" % len(case["blocks"]))
+        if any(len(b) >= 3 and max(b) >= 8 and sorted(b) != list(range(min(b), min(b) + len(b))) for b in case["blocks"]):
+            cl.append("interleaved_block_with_vertex>=8")
     disc = "disconnected" in cl
     icls = ("disconnected" if disc else "connected") + (":equivalent" if truth else ":inequivalent")
     a1, a2 = rg.adj_from_mask(n, m1), rg.adj_from_mask(n, m2)
@@ -275,6 +300,41 @@ def enum_pairs(tier, seed):
     return cases, exhaustive
 
 
+@st.composite
+def st_union(draw):
+    """disjoint unions of small graphs on interleaved vertex sets, n = 7..12; the second graph is reached by random local
+    complementations (equivalent) or has one block replaced / one edge toggled inside a block (mostly inequivalent)"""
+    n = draw(st.integers(7, 12))
+    perm = draw(st.permutations(list(range(n))))
+    blocks = []
+    i = 0
+    while i < n:
+        k = min(n - i, draw(st.integers(1, 5)))
+        blocks.append(sorted(perm[i:i + k]))
+        i += k
+    pairs = rg.pairs(n)
+    m1 = 0
+    for b in blocks:
+        for x in range(len(b)):
+            for y in range(x + 1, len(b)):
+                # connected-ish blocks: a path plus random chords
+                if y == x + 1 or draw(st.booleans()):
+                    m1 |= 1 << pairs.index((b[x], b[y]))
+    m2 = m1
+    for v in draw(st.lists(st.integers(0, n - 1), max_size=8)):
+        m2 = rg.local_complement(n, m2, v)
+    how = draw(st.sampled_from(["orbit", "orbit", "toggle", "same"]))
+    if how == "same":
+        m2 = m1
+    elif how == "toggle":
+        b = draw(st.sampled_from([b for b in blocks if len(b) >= 2] or [blocks[0]]))
+        if len(b) >= 2:
+            x, y = sorted(draw(st.lists(st.sampled_from(b), min_size=2, max_size=2, unique=True)))
+            m2 ^= 1 << pairs.index((x, y))
+    return {"n": n, "m1": m1, "m2": m2, "blocks": blocks, "kinds": [draw(st.sampled_from(["graph", "array", "stab"]))],
+            "seed": draw(st.integers(0, 999))}
+
+
 def enum_localcomp(tier, seed):
     return gg.all_graphs(4 if tier == "quick" else 5), True
 
@@ -300,6 +360,8 @@ def strat_tableaux(tier):
 SUBS = [
     Sub("pairs", check_pair, enum=enum_pairs, timeout={"quick": 30, "thorough": 60},
         doc="all ordered pairs of labelled graphs n<=4 (quick) / n<=5 (thorough) + sampled n=5/6 orbit members and near misses"),
+    Sub("unions", check_pair, strategy=lambda tier: st_union(), n={"quick": 25, "thorough": 600}, timeout={"quick": 60, "thorough": 120},
+        doc="7..12 vertices: disjoint unions of blocks of <= 5 interleaved vertices; truth block by block from the orbit table"),
     Sub("localcomp", check_localcomp, enum=enum_localcomp, doc="local complementation on every (graph, vertex), n<=4/5"),
     Sub("tableaux", check_tableau_pair, strategy=strat_tableaux, n={"quick": 40, "thorough": 600},
         doc="lc_check on general stabilizer states n<=3 in random generating sets, truth by brute force over 24^n local Cliffords"),
